@@ -156,6 +156,9 @@ def oracle_arma(p):
     out = []
     A, B, rho = sp.arma_estimate(x, P, Q, lag)
     A, B = c(A), c(B)
+    if not (np.all(np.isfinite(A)) and np.all(np.isfinite(B)) and np.isfinite(rho)):
+        return ["arma_estimate(P=%d, Q=%d, lag=%d) returns non-finite coefficients / variance on in-domain data (N=%d, %s)" % (
+            P, Q, lag, len(x), "complex" if np.iscomplexobj(x) else "real")]
     if len(A) != P:
         out.append("arma_estimate returned %d AR coefficients for P=%d (Q=%d lag=%d)" % (len(A), P, Q, lag))
     if len(B) != Q:
@@ -506,10 +509,20 @@ def gen(rng, nrng, tier):
             x = _arma_data(nrng, N, cplx, kind, False)
             if _in_domain(N, P, Q, lag) and np.linalg.cond(_myw(x, P, Q, lag)[0]) <= 1e8:
                 yield ("arma_laws", {"x": x, "P": P, "Q": Q, "lag": lag, "dkind": kind, "fam": fam})
-    if False:  # PENDING-FINDING arma_estimate(x, 2, 1, 3) (P > Q, lag - Q == P, lag < 2P) returns NaN/inf for about 2% of complex records
-        for r in range(reps * 4):
-            x = _arma_data(nrng, int(nrng.integers(16, 257)), bool(r % 2), ["noise", "arma"][(r // 2) % 2], False)
-            yield ("arma_laws", {"x": x, "P": 2, "Q": 1, "lag": 3, "dkind": ["noise", "arma"][(r // 2) % 2], "fam": "lag-Q==P,P>Q"})
+    # KNOWN FINDING (known_findings.json, not repaired: the unedited test suite pins parma(marple_data, 8, 4, 10).power(), which any
+    # repair of the lag sequence changes).  For P > Q the lag sequence of lag-Q+P values is truncated to `lag` samples before the
+    # covariance fit, which then sees lag-P equations for P unknowns: with lag < 2P the system is singular and arma_estimate returns
+    # NaN/inf on some records ((2,1,3): ~2% of complex records; (4,1,5): ~20%).  In the stated domain (Q <= lag, lag+2P-Q <= N,
+    # 2Q < N-P).  Two fixed reproducers run in every tier, plus random records of the two call sites.
+    r53 = np.random.default_rng(53)
+    yield ("arma_laws", {"x": r53.standard_normal(32) + 1j * r53.standard_normal(32), "P": 2, "Q": 1, "lag": 3, "dkind": "noise",
+                         "fam": "known:P>Q,lag<2P"})
+    r6 = np.random.default_rng(6)
+    yield ("arma_laws", {"x": r6.standard_normal(32), "P": 4, "Q": 1, "lag": 5, "dkind": "noise", "fam": "known:P>Q,lag<2P"})
+    for r in range(reps * 4):
+        x = _arma_data(nrng, int(nrng.integers(16, 257)), bool(r % 2), ["noise", "arma"][(r // 2) % 2], False)
+        P_, Q_, lag_ = [(2, 1, 3), (4, 1, 5)][(r // 4) % 2]
+        yield ("arma_laws", {"x": x, "P": P_, "Q": Q_, "lag": lag_, "dkind": ["noise", "arma"][(r // 2) % 2], "fam": "known:P>Q,lag<2P"})
     # N + lag - 1 a power of two (size boundaries of the lag computation) for the P = Q triples: the least-squares clause is
     # evaluated against directly summed lags
     pq = [t for t in PQL if t[0] == t[1]]
